@@ -368,11 +368,16 @@ class DirectoryRecord:
         bytes_to_skip = 0
         if self.xa_record is not None:
             bytes_to_skip = XARecord.length()
-        self.dr_len = self.rock_ridge.new(is_first_dir_record_of_root, rr_name,
-                                          file_mode, rr_symlink_target,
-                                          rr_version, rr_relocated_child,
-                                          rr_relocated, rr_relocated_parent,
-                                          bytes_to_skip, self.dr_len, {}, date_seconds)
+        try:
+            self.dr_len = self.rock_ridge.new(is_first_dir_record_of_root, rr_name,
+                                              file_mode, rr_symlink_target,
+                                              rr_version, rr_relocated_child,
+                                              rr_relocated, rr_relocated_parent,
+                                              bytes_to_skip, self.dr_len, {}, date_seconds)
+        except pycdlibexception.PyCdlibInternalError as e:
+            # The identifier leaves no room for the Rock Ridge entries in the
+            # directory record; for the caller that is invalid input.
+            raise pycdlibexception.PyCdlibInvalidInput('Identifier is too long to fit into a directory record together with Rock Ridge (%s)' % (str(e))) from e
 
         ce_record = self.rock_ridge.dr_entries.ce_record
         if ce_record is not None and ce_record.len_cont_area > self.vd.logical_block_size():
@@ -509,6 +514,10 @@ class DirectoryRecord:
             self.dr_len += XARecord.length()
 
         self.dr_len += (self.dr_len % 2)
+
+        if self.dr_len > 254:
+            # The length of a directory record is stored in a single byte.
+            raise pycdlibexception.PyCdlibInvalidInput('Identifier is too long to fit into a directory record')
 
         if self.is_root:
             self._printable_name = '/'.encode(vd.encoding)
